@@ -76,7 +76,7 @@ def class_src(name, c, classes):
              "        self.l = vsc.rand_list_t(vsc.uint8_t(), sz=2)", "        self.u = vsc.uint8_t(0)"]
     lines += items_src(c["init"], "self", 2, classes, "init")
     for i, b in enumerate(c["blocks"]):
-        lines += ["    @vsc.constraint", "    def c%d(self):" % i]
+        lines += ["    @vsc.%s" % ("dynamic_constraint" if i in c.get("dynamic", []) else "constraint"), "    def c%d(self):" % i]
         body = items_src(b, "self", 2, classes, "block")
         lines += body if body else ["        pass"]
     # a block that makes the object unsatisfiable when the non-random field u is set
